@@ -2,11 +2,13 @@ import Driver.Util
 import Driver.Suites.Blocks
 import Driver.Suites.InfoDL
 import Driver.Suites.Magnet
+import Driver.Suites.Adopt
 /-! Table of suites known to the driver.  One line per suite (merge=union friendly). -/
 namespace Driver
 def registry : List Suite := [
   Suites.Blocks.suite,
   Suites.InfoDL.suite,
   Suites.Magnet.suite,
+  Suites.Adopt.suite,
 ]
 end Driver
